@@ -53,7 +53,8 @@ impl<'b, 'c> MessageBuilder<'b, 'c> {
             flags,
             counts: SectionCounts::default(),
         };
-        // TODO: Reset the name compressor.
+        // Forget names that were written into another message.
+        *compressor = NameCompressor::new();
         Self {
             message,
             offset: 0,
@@ -146,7 +147,7 @@ impl<'b> MessageBuilder<'b, '_> {
     pub fn truncate(&mut self) {
         self.message.header.flags.set_tc(true);
         self.offset = 0;
-        // TODO: Reset the name compressor.
+        *self.compressor = NameCompressor::new();
     }
 
     /// Append a message item.
@@ -184,13 +185,20 @@ impl<'b> MessageBuilder<'b, '_> {
         }
 
         // Try to build the item.
-        self.offset = item.build_in_message(
+        match item.build_in_message(
             &mut self.message.contents,
             self.offset,
             self.compressor,
-        )?;
-
-        // TODO: Reset the name compressor in case of failure.
+        ) {
+            Ok(offset) => self.offset = offset,
+            Err(err) => {
+                // The compressor may have recorded names of this item, which
+                // will be overwritten by the next one. Forget all names, so
+                // that it never refers to bytes that are not there.
+                *self.compressor = NameCompressor::new();
+                return Err(err.into());
+            }
+        }
 
         // Update the section counts, now that we have succeeded.
         counts[section] += 1;
